@@ -223,11 +223,11 @@ var proxyPreambles = [][]byte{
 	[]byte("PROXY TCP6 ::1 ::1 40000 5001\r\n"),
 	[]byte("PROXY UNKNOWN\r\n"),
 	[]byte("PROXY TCP4 300.1.1.1 x 1 2\r\n"),
-	[]byte(proxyV2Sig + "\x21\x11\x00\x0c\x0a\x01\x01\x01\x0a\x01\x01\x02\x9c\x40\x13\x89"),                 // v2 TCP over IPv4
-	[]byte(proxyV2Sig + "\x21\x12\x00\x0c\x0a\x01\x01\x01\x0a\x01\x01\x02\x9c\x40\x13\x89"),                 // v2 UDP over IPv4
+	[]byte(proxyV2Sig + "\x21\x11\x00\x0c\x0a\x01\x01\x01\x0a\x01\x01\x02\x9c\x40\x13\x89"), // v2 TCP over IPv4
+	[]byte(proxyV2Sig + "\x21\x12\x00\x0c\x0a\x01\x01\x01\x0a\x01\x01\x02\x9c\x40\x13\x89"), // v2 UDP over IPv4
 	append([]byte(proxyV2Sig+"\x21\x31\x00\xd8"), append(append(make([]byte, 0, 216), padTo([]byte("/tmp/a.sock"), 108)...), padTo([]byte("/tmp/b.sock"), 108)...)...), // v2 AF_UNIX stream
-	[]byte(proxyV2Sig + "\x20\x00\x00\x00"),                                                                     // v2 LOCAL
-	[]byte(proxyV2Sig + "\x21\x11\xff\xff\x0a"),                                                                 // v2 with a length that lies
+	[]byte(proxyV2Sig + "\x20\x00\x00\x00"),     // v2 LOCAL
+	[]byte(proxyV2Sig + "\x21\x11\xff\xff\x0a"), // v2 with a length that lies
 	[]byte(proxyV2Sig[:7]),
 }
 
